@@ -166,6 +166,10 @@ fn apply_edit(kind: &str, item: &mut Item, o: &J) -> i64 {
                     t.sort_values_by(|_, a, _, b| (id_item(a) % 3).cmp(&(id_item(b) % 3)));
                     -1
                 }
+                "sort_values_by_key" => {
+                    t.sort_values_by(|k1, _, k2, _| k1.get().cmp(k2.get()));
+                    -1
+                }
                 "clear" => {
                     t.clear();
                     -1
@@ -208,6 +212,10 @@ fn apply_edit(kind: &str, item: &mut Item, o: &J) -> i64 {
                 }
                 "sort_values_by_mod3" => {
                     t.sort_values_by(|_, a, _, b| (id_value(a) % 3).cmp(&(id_value(b) % 3)));
+                    -1
+                }
+                "sort_values_by_key" => {
+                    t.sort_values_by(|k1, _, k2, _| k1.get().cmp(k2.get()));
                     -1
                 }
                 "clear" => {
